@@ -195,18 +195,35 @@ theorem sender_blocks_eq_rfc (b l e aL aS nL n : Nat) (hb : 0 < b) (he : 0 < e) 
   rw [h3, h4, h5]
 
 /-- (5b) Receiver side.  The source-block length the receiver uses for block `sbn` when the payload ID carries none
-    (`a_large` if `sbn < nb_a_large` else `a_small`) is the RFC symbol count, i.e. what the sender announced;
-    together with `block_length_eq_rfc` both ends derive the same `(symbols, bytes)` for every block. -/
+    (`sbn < nb_a_large as u32 ? a_large as u32 : a_small as u32`, casts included) is the RFC symbol count, i.e. what the
+    sender announced - provided `B < 2^32` (it is a `u32` field of the OTI) and the object has at most `2^32` blocks
+    (SBNs are at most 32 bits wide; `FileDesc::new` refuses longer objects).  Together with `block_length_eq_rfc` both
+    ends derive the same `(symbols, bytes)` for every block.  The bound is needed: see `receiver_cast_witness`. -/
 theorem receiver_symbols_eq_rfc (b l e sbn aL aS nL n : Nat) (hb : 0 < b) (he : 0 < e) (hl0 : 0 < l) (hl : l < 2^64)
+    (hb32 : b < 2^32) (hn32 : n ≤ 2^32)
     (hq : blockPartitioning b l e = .ok (aL, aS, nL, n)) :
     receiverBlockSymbols (aL, aS, nL, n) sbn = (rfc5052 l e b).symbolsOf sbn := by
-  rw [bp_shape b l e hb he hl0 hl] at hq
+  have hcov := partition_covers b l e hb he hl0
+  rw [partition_eq_rfc b l e hb he hl] at hq
+  have hN : (rfc5052 l e b).N ≠ 0 := by have := hcov.2.2.2.2.1; omega
+  simp only [hN, if_false] at hq
   injection hq with hq
   simp only [Prod.mk.injEq] at hq
   obtain ⟨rfl, rfl, rfl, rfl⟩ := hq
-  have ⟨h1, h2, h3, h4, h5⟩ := spec_fields b l e hb he hl0
+  obtain ⟨_, h2, h3, _, _, _, h7, _, _⟩ := hcov
   unfold receiverBlockSymbols Rfc5052.symbolsOf
-  rw [h3, h4, h5]
+  simp only
+  rw [Nat.mod_eq_of_lt (by omega : (rfc5052 l e b).I < 2^32),
+      Nat.mod_eq_of_lt (by omega : (rfc5052 l e b).aLarge < 2^32),
+      Nat.mod_eq_of_lt (by omega : (rfc5052 l e b).aSmall < 2^32)]
+
+/-- The `as u32` casts matter outside that range: for `(B, E, L) = (2, 1, 2^33 + 1)` the partition has `I = 2^32` large
+    blocks, `nb_a_large as u32 = 0`, and the receiver would size block 0 with `a_small = 1` symbol instead of the RFC's 2.
+    (Unreachable through a real sender: `FileDesc::new` refuses `L > E·B·max_sbn`, and SBNs have at most 32 bits.) -/
+theorem receiver_cast_witness :
+    blockPartitioning 2 (2^33 + 1) 1 = .ok (2, 1, 2^32, 2^32 + 1) ∧
+    receiverBlockSymbols (2, 1, 2^32, 2^32 + 1) 0 = 1 ∧ (rfc5052 (2^33 + 1) 1 2).symbolsOf 0 = 2 := by
+  refine ⟨by rfl, by decide, by decide⟩
 
 /-- (5c) Payload-ID-borne block length (RS under-specified): the number of source symbols the sender puts on the wire
     for a block, `div_ceil(bytes of the block, E)`, equals the RFC symbol count of that block. -/
@@ -265,6 +282,132 @@ theorem raptor_B_reconstruct (b l e aL aS nL n : Nat) (hb : 0 < b) (he : 0 < e) 
     rw [hB']; exact divCeil_pos _ _ hN hT
   rw [bp_shape _ l e hpos he hl0 hl, hB', divCeil_reconstruct _ _ hT hb]
 
+/-- (6b) The reconstructed `B'` never exceeds the sender's `B`, hence fits the `u32` the parser stores it in
+    (`maximum_source_block_length as u32` truncates nothing) whenever `B < 2^32`. -/
+theorem raptor_B_fits_u32 (b l e aL aS nL n : Nat) (hb : 0 < b) (he : 0 < e) (hl0 : 0 < l) (hl : l < 2^64)
+    (hb32 : b < 2^32) (hq : blockPartitioning b l e = .ok (aL, aS, nL, n)) :
+    reconstructB l e n ≤ b ∧ reconstructB32 l e n = reconstructB l e n := by
+  rw [bp_shape b l e hb he hl0 hl] at hq
+  injection hq with hq
+  simp only [Prod.mk.injEq] at hq
+  obtain ⟨rfl, rfl, rfl, rfl⟩ := hq
+  have hT : 0 < divCeil l e := divCeil_pos l e he hl0
+  have ⟨hN, _, _⟩ := nblocks_bounds (divCeil l e) b hT hb
+  have hB' : reconstructB l e (divCeil (divCeil l e) b) = divCeil (divCeil l e) (divCeil (divCeil l e) b) := by
+    unfold reconstructB
+    exact divCeil_divCeil_comm l _ e hN he
+  have hle := aLarge_le_B (divCeil l e) b hT hb
+  refine ⟨by rw [hB']; exact hle, ?_⟩
+  unfold reconstructB32
+  rw [hB']
+  exact Nat.mod_eq_of_lt (by omega)
+
+/-- (6c) Degenerate case `L = 0`: the sender transmits `Z = max(N, 1) = 1`; the reconstructed `B' = 0` gives the
+    same (empty) partition as the sender's `B`. -/
+theorem raptor_B_reconstruct_empty (b e : Nat) :
+    reconstructB 0 e 1 = 0 ∧ blockPartitioning (reconstructB 0 e 1) 0 e = blockPartitioning b 0 e := by
+  have h0 : reconstructB 0 e 1 = 0 := by
+    unfold reconstructB divCeil; simp
+  refine ⟨h0, ?_⟩
+  rw [h0, partition_degenerate 0 0 e (Or.inl rfl), partition_degenerate b 0 e (Or.inr (Or.inr rfl))]
+
+/-- (4d) The byte-length clauses stated on the MODEL OF THE CODE (not on the spec record): for `0 < L < 2^48`,
+    `0 < E < 2^16`, `B > 0`, with the quadruple returned by `block_partitioning`, `block_length` succeeds (no overflow)
+    on every block `sbn < N`, the results sum to `L`, and every block but the last is exactly `A_sbn · E` bytes. -/
+theorem block_lengths_model (b l e aL aS nL n : Nat) (hb : 0 < b) (he : 0 < e) (hl0 : 0 < l)
+    (hl : l < 2^48) (he16 : e < 2^16) (hq : blockPartitioning b l e = .ok (aL, aS, nL, n)) :
+    ∃ ls : List Nat,
+      (List.range n).map (blockLength aL aS nL l e) = ls.map Except.ok ∧ ls.length = n ∧ ls.sum = l ∧
+      ∀ sbn, sbn + 1 < n → ls[sbn]? = some ((if sbn < nL then aL else aS) * e) := by
+  have hq' := hq
+  rw [partition_eq_rfc b l e hb he (by omega)] at hq'
+  have hcov := partition_covers b l e hb he hl0
+  have hN : (rfc5052 l e b).N ≠ 0 := by have := hcov.2.2.2.2.1; omega
+  simp only [hN, if_false] at hq'
+  injection hq' with hq'
+  simp only [Prod.mk.injEq] at hq'
+  obtain ⟨haL, haS, hnL, hn⟩ := hq'
+  refine ⟨(List.range n).map ((rfc5052 l e b).byteLen l e), ?_, by simp, ?_, ?_⟩
+  · rw [List.map_map]
+    apply List.map_congr_left
+    intro sbn hs
+    rw [List.mem_range] at hs
+    simp only [Function.comp]
+    exact block_length_eq_rfc b l e sbn aL aS nL n hb he hl0 hl he16 hq hs
+  · rw [← hn]; exact block_lengths_sum b l e hb he hl0
+  · intro sbn hs
+    rw [List.getElem?_map, List.getElem?_range (by omega)]
+    simp only [Option.map_some]
+    rw [only_last_block_short b l e sbn hb he hl0 (by rw [hn]; exact hs)]
+    unfold Rfc5052.symbolsOf
+    rw [← hnL, ← haL, ← haS]
+
+/-- (5) **Both ends agree**, in one statement.  For `0 < L < 2^48`, `0 < E < 2^16`, `0 < B < 2^32` and an object of at
+    most `2^32` blocks: the `sbn`-th block cut by the sender's slicing loop announces exactly the number of source symbols
+    the receiver assumes for that block (casts included), and covers exactly the number of bytes the receiver's
+    `block_length` computes (without overflow) - whether the receiver partitions with the sender's `B` (No-Code, RS: B is
+    in EXT_FTI / the FDT) or with the `B'` it reconstructs from `Z = N` (RaptorQ / Raptor, as stored in a `u32`). -/
+theorem sender_receiver_agree (b l e aL aS nL n sbn : Nat) (hb : 0 < b) (he : 0 < e) (hl0 : 0 < l)
+    (hl : l < 2^48) (he16 : e < 2^16) (hb32 : b < 2^32) (hn32 : n ≤ 2^32)
+    (hq : blockPartitioning b l e = .ok (aL, aS, nL, n)) (hs : sbn < n) (fuel : Nat) (hf : n ≤ fuel) :
+    ∃ k s en, (senderBlocks (aL, aS, nL, n) l e fuel 0 0)[sbn]? = some (k, s, en) ∧
+      receiverBlockSymbols (aL, aS, nL, n) sbn = k ∧
+      blockLength aL aS nL l e sbn = .ok (en - s) ∧
+      blockPartitioning (reconstructB32 l e n) l e = .ok (aL, aS, nL, n) := by
+  have hsb := sender_blocks_eq_rfc b l e aL aS nL n hb he hl0 (by omega) hq fuel hf
+  have hrx := receiver_symbols_eq_rfc b l e sbn aL aS nL n hb he hl0 (by omega) hb32 hn32 hq
+  have hbl := block_length_eq_rfc b l e sbn aL aS nL n hb he hl0 hl he16 hq hs
+  have hfit := raptor_B_fits_u32 b l e aL aS nL n hb he hl0 (by omega) hb32 hq
+  have hrec := raptor_B_reconstruct b l e aL aS nL n hb he hl0 (by omega) hq
+  refine ⟨(rfc5052 l e b).symbolsOf sbn, (rfc5052 l e b).firstSymbol sbn * e,
+    min (((rfc5052 l e b).firstSymbol sbn + (rfc5052 l e b).symbolsOf sbn) * e) l, ?_, hrx, ?_, ?_⟩
+  · rw [hsb, List.getElem?_map, List.getElem?_range hs]; rfl
+  · rw [hbl]
+    congr 1
+    -- the sender's byte range is the spec's byte length: the block starts inside the object
+    have hcov := partition_covers b l e hb he hl0
+    unfold Rfc5052.byteLen
+    have : (rfc5052 l e b).firstSymbol sbn * e ≤ l := by
+      -- first·e ≤ min((first+k)·e, l) because the sender's list has end ≥ start; derive from monotonicity of min
+      rcases Nat.le_total ((rfc5052 l e b).firstSymbol sbn * e) l with h | h
+      · exact h
+      · -- impossible: then the spec byte length would be 0 although every block holds ≥ 1 byte (sum argument is
+        -- heavier); use block_length on the model: bytes = min(..) - min(..) and the sender block is non-empty
+        exfalso
+        have hfirst : (rfc5052 l e b).firstSymbol sbn + 1 ≤ (rfc5052 l e b).T := by
+          -- first(sbn) + (N - sbn) ≤ T, from the room lemma in the (q,r) form
+          have ⟨h1, h2, h3, h4, h5⟩ := spec_fields b l e hb he hl0
+          have hT : 0 < divCeil l e := divCeil_pos l e he hl0
+          have ⟨hN, hNT, _⟩ := nblocks_bounds (divCeil l e) b hT hb
+          have ⟨hq1, _, _⟩ := quad_shape (divCeil l e) (divCeil (divCeil l e) b) hN hNT
+          have hcv := coverage (divCeil l e) (divCeil (divCeil l e) b) hN
+          have hr := Nat.mod_lt (divCeil l e) hN
+          have hnN : n = (rfc5052 l e b).N := by
+            have hq' := hq
+            rw [partition_eq_rfc b l e hb he (by omega)] at hq'
+            have hN0 : (rfc5052 l e b).N ≠ 0 := by omega
+            simp only [hN0, if_false] at hq'
+            injection hq' with hq'
+            simp only [Prod.mk.injEq] at hq'
+            exact hq'.2.2.2.symm
+          generalize haLg : (if divCeil l e % divCeil (divCeil l e) b = 0 then divCeil l e / divCeil (divCeil l e) b
+               else divCeil l e / divCeil (divCeil l e) b + 1) = aLg at h3 hcv
+          have haL1 : 1 ≤ aLg := by rw [← haLg]; split <;> omega
+          have hroom := firstSym_room aLg (divCeil l e / divCeil (divCeil l e) b)
+            (divCeil l e % divCeil (divCeil l e) b) (divCeil (divCeil l e) b) haL1 hq1
+            (divCeil (divCeil l e) b - sbn) (by omega)
+          rw [firstSym_N _ _ _ _ (Nat.le_of_lt hr), hcv,
+            show divCeil (divCeil l e) b - (divCeil (divCeil l e) b - sbn) = sbn by omega] at hroom
+          unfold Rfc5052.firstSymbol
+          rw [h1, h3, h4, h5]
+          unfold firstSym at hroom
+          omega
+        have := sym_lt (T := (rfc5052 l e b).T) (l := l) (e := e) (s := (rfc5052 l e b).firstSymbol sbn)
+          hcov.2.2.2.2.2.2.2.2 hfirst
+        omega
+    omega
+  · rw [hfit.2]; exact hrec
+
 /-! ### non-vacuity: concrete instances meeting the hypotheses, with unequal blocks -/
 
 example : blockPartitioning 3 23 4 = .ok (3, 3, 0, 2) := by rfl
@@ -274,6 +417,7 @@ example : rfc5052 100 3 5 = { T := 34, N := 7, aLarge := 5, aSmall := 4, I := 6 
 example : blockLength 5 4 6 100 3 6 = .ok 10 ∧ (rfc5052 100 3 5).byteLen 100 3 6 = 10 := ⟨by rfl, by decide⟩
 example : senderBlocks (5, 4, 6, 7) 100 3 7 0 0 =
     [(5,0,15),(5,15,30),(5,30,45),(5,45,60),(5,60,75),(5,75,90),(4,90,100)] := by decide
+example : receiverBlockSymbols (5, 4, 6, 7) 5 = 5 ∧ receiverBlockSymbols (5, 4, 6, 7) 6 = 4 := by decide
 example : reconstructB 100 3 7 = 5 ∧ blockPartitioning 6 100 3 = .ok (6, 5, 4, 6) ∧ reconstructB 100 3 6 = 6 :=
   ⟨by decide, by rfl, by decide⟩
 
